@@ -140,6 +140,9 @@ func (c *cursorManager) SetCursor(ctx context.Context, streamName, cursorID stri
 		Stream:    cursorsStream,
 		Partition: cursorsPartitionID,
 		AckPolicy: client.AckPolicy_ALL,
+		// Unconditional publish (matters when concurrency control is enabled
+		// for all streams).
+		ExpectedOffset: -1,
 	})
 	if err != nil {
 		return status.New(codes.Internal, err.Error())
